@@ -25,6 +25,7 @@
 import SpqProofs.Lemmas.ProgVals
 import SpqProofs.Lemmas.ProgCheck
 import SpqProofs.Lemmas.ProgDft
+import SpqProofs.Lemmas.ProgRaw
 import SpqProofs.Lemmas.ProgToy
 namespace Spq.C16
 open Spq Heap Spq.C08 Spq.Prog
@@ -190,34 +191,58 @@ theorem coeff_prog_output (wf : WF nn hsz vars) (ops : List Op) (env : Env) (h :
     Full statement aimed at (`prog_refines`): for the binary64 module `Cfg.parts`, every mixed program
     whose abstract run stays inside the C01 precision budget refines its abstract semantics.  What is proved
     here is that statement *relative to* `S : DftOpsSound c nn` — the record of the per-function facts
-    `dft_exact`, `svp_prepare_exact`, `svp_exact`, `vmp_prepare_exact`, `vmp_exact`, `dft_idft_exact`,
-    `small_product_exact` about the module-level model (the C01 / C02 theorems, proved separately: exact
+    `dft_exact`, `svp_prepare_exact`, `svp_exact`, `vmp_prepare_exact`, `vmp_exact`, `vmp_dd_exact`
+    (`vmp_apply_dft_to_dft`, `OpD.vmpDD`), `dft_idft_exact`, `small_product_exact` about the module-level model (the C01 / C02 theorems, proved separately: exact
     arithmetic with budgets `True`, binary64 with the C01 bounds), together with the representation
     relations `RepV/RepS/RepM` they are stated with.  Everything else — reading operands from the heap with
     their strides, storing results, frames, the interplay with the coefficient-space calls, opaque objects
-    being valid inputs of every later call — is proved. -/
+    being valid inputs of every later call — is proved.  `RD` also carries the provenance of raw transforms (a
+    `VEC_ZNX_DFT` variable whose static tag `AState.raw` is set is, bit for bit, `vec_znx_dft` of its exact limbs:
+    `Lemmas/ProgRaw.lean`), which `vmp_dd_exact` may use.  The record is instantiated for the exact FFT network in
+    `Properties/Closed.lean` (all budgets `True`, products of products included) and for the binary64 module
+    `Cfg.parts` in `Properties/C16Err.lean` (`dftOpsSound_f64`: the C01Err / C02Err budgets). -/
 
 variable {α : Type}
 
 theorem stepD_refines_partial {c : Module.Parts α} (S : DftOpsSound c nn) (wf : WF nn hsz vars)
     (op : OpD) (a : AState) (s : CState α) (hpre : PreD S vars op a) (hR : RD S hsz vars a s) :
     RD S hsz vars (astepD nn op a) (cstepD c nn op s) := by
-  obtain ⟨r1, r2, r3, r4⟩ := hR
-  cases op with
-  | coeff op => exact ⟨step_refines wf op a.env s.heap hpre r1, r2, r3, r4⟩
-  | dft d x =>
-    obtain ⟨hx, hb⟩ := hpre
-    refine ⟨r1, fun v P hv => ?_, r3, r4⟩
+  obtain ⟨r1, r2, r3, r4, r5⟩ := hR
+  -- the provenance conjunct survives a call that writes the DFT variable `d` with a product (tag cleared)
+  have clear : ∀ (d : DVar) (P0 : Val) (x0 : Array α) (v : DVar) (az : Nat),
+      upd a.raw d none v = some az → ∃ P, upd a.dvec d (some P0) v = some P ∧
+        upd s.dvec d x0 v = Module.vecDft c v.size (flatOf nn v.size fun i t => P.coef i t) (min az v.size) nn := by
+    intro d P0 x0 v az hv
     by_cases e : v = d
     · subst e
-      simp only [astepD, cstepD, upd_same] at hv ⊢
+      rw [upd_same] at hv
       cases hv
-      exact S.dft_exact _ _ _ _ _ (wf.stride x hx) (flat_agree wf r1 x hx) hb
-    · simp only [astepD, cstepD, upd_other _ _ _ _ e] at hv ⊢
-      exact r2 v P hv
+    · rw [upd_other _ _ _ _ e] at hv
+      rw [upd_other _ _ _ _ e, upd_other _ _ _ _ e]
+      exact r5 v az hv
+  cases op with
+  | coeff op => exact ⟨step_refines wf op a.env s.heap hpre r1, r2, r3, r4, r5⟩
+  | dft d x =>
+    obtain ⟨hx, hb⟩ := hpre
+    have hag := flat_agree wf r1 x hx
+    refine ⟨r1, fun v P hv => ?_, r3, r4, fun v az hv => ?_⟩
+    · by_cases e : v = d
+      · subst e
+        simp only [astepD, cstepD, upd_same] at hv ⊢
+        cases hv
+        exact S.dft_exact _ _ _ _ _ (wf.stride x hx) hag hb
+      · simp only [astepD, cstepD, upd_other _ _ _ _ e] at hv ⊢
+        exact r2 v P hv
+    · by_cases e : v = d
+      · subst e
+        simp only [astepD, cstepD, upd_same] at hv ⊢
+        cases hv
+        exact ⟨_, rfl, vecDft_raw c nn S.nn_eq v.size _ x.size x.stride _ hag⟩
+      · simp only [astepD, cstepD, upd_other _ _ _ _ e] at hv ⊢
+        exact r5 v az hv
   | svpPrepare k x =>
     obtain ⟨hx, h0, hb⟩ := hpre
-    refine ⟨r1, r2, fun j sp hj => ?_, r4⟩
+    refine ⟨r1, r2, fun j sp hj => ?_, r4, r5⟩
     by_cases e : j = k
     · subst e
       simp only [astepD, cstepD, upd_same] at hj ⊢
@@ -228,17 +253,19 @@ theorem stepD_refines_partial {c : Module.Parts α} (S : DftOpsSound c nn) (wf :
       exact r3 j sp hj
   | svp d k x =>
     obtain ⟨hx, sp, hk, hb⟩ := hpre
-    refine ⟨r1, fun v P hv => ?_, r3, r4⟩
-    by_cases e : v = d
-    · subst e
-      simp only [astepD, cstepD, upd_same, hk, Option.getD_some] at hv ⊢
-      cases hv
-      exact S.svp_exact _ _ _ _ _ sp _ (wf.stride x hx) (flat_agree wf r1 x hx) (r3 k sp hk) hb
-    · simp only [astepD, cstepD, upd_other _ _ _ _ e] at hv ⊢
-      exact r2 v P hv
+    refine ⟨r1, fun v P hv => ?_, r3, r4, fun v az hv => ?_⟩
+    · by_cases e : v = d
+      · subst e
+        simp only [astepD, cstepD, upd_same, hk, Option.getD_some] at hv ⊢
+        cases hv
+        exact S.svp_exact _ _ _ _ _ sp _ (wf.stride x hx) (flat_agree wf r1 x hx) (r3 k sp hk) hb
+      · simp only [astepD, cstepD, upd_other _ _ _ _ e] at hv ⊢
+        exact r2 v P hv
+    · simp only [astepD, cstepD] at hv ⊢
+      exact clear d _ _ v az hv
   | vmpPrepare m x =>
     obtain ⟨hx, hst, hsz', hb⟩ := hpre
-    refine ⟨r1, r2, r3, fun j M hj => ?_⟩
+    refine ⟨r1, r2, r3, fun j M hj => ?_, r5⟩
     by_cases e : j = m
     · subst e
       simp only [astepD, cstepD, upd_same] at hj ⊢
@@ -257,18 +284,37 @@ theorem stepD_refines_partial {c : Module.Parts α} (S : DftOpsSound c nn) (wf :
       exact r4 j M hj
   | vmp d x m =>
     obtain ⟨hx, M, hm, hb⟩ := hpre
-    refine ⟨r1, fun v P hv => ?_, r3, r4⟩
-    by_cases e : v = d
-    · subst e
-      simp only [astepD, cstepD, upd_same, hm, Option.getD_some] at hv ⊢
-      cases hv
-      exact S.vmp_exact _ _ _ v.size _ M _ m.nrows m.ncols (wf.stride x hx) (flat_agree wf r1 x hx)
-        (r4 m M hm) hb
-    · simp only [astepD, cstepD, upd_other _ _ _ _ e] at hv ⊢
-      exact r2 v P hv
+    refine ⟨r1, fun v P hv => ?_, r3, r4, fun v az hv => ?_⟩
+    · by_cases e : v = d
+      · subst e
+        simp only [astepD, cstepD, upd_same, hm, Option.getD_some] at hv ⊢
+        cases hv
+        exact S.vmp_exact _ _ _ v.size _ M _ m.nrows m.ncols (wf.stride x hx) (flat_agree wf r1 x hx)
+          (r4 m M hm) hb
+      · simp only [astepD, cstepD, upd_other _ _ _ _ e] at hv ⊢
+        exact r2 v P hv
+    · simp only [astepD, cstepD] at hv ⊢
+      exact clear d _ _ v az hv
+  | vmpDD d x m =>
+    obtain ⟨P, M, hP, hm, hb⟩ := hpre
+    refine ⟨r1, fun v Q hv => ?_, r3, r4, fun v az hv => ?_⟩
+    · by_cases e : v = d
+      · subst e
+        simp only [astepD, cstepD, upd_same, hP, hm, Option.getD_some] at hv ⊢
+        cases hv
+        refine S.vmp_dd_exact P x.size v.size (s.dvec x) M _ m.nrows m.ncols (a.raw x) (r2 x P hP) ?_ (r4 m M hm) hb
+        intro az haz
+        obtain ⟨P', hP', hd⟩ := r5 x az haz
+        rw [hP] at hP'
+        cases hP'
+        exact hd
+      · simp only [astepD, cstepD, upd_other _ _ _ _ e] at hv ⊢
+        exact r2 v Q hv
+    · simp only [astepD, cstepD] at hv ⊢
+      exact clear d _ _ v az hv
   | idft d x =>
     obtain ⟨hd, P, hP, hb⟩ := hpre
-    refine ⟨?_, r2, r3, r4⟩
+    refine ⟨?_, r2, r3, r4, r5⟩
     have hres : InBounds nn s.heap.mem.size d.off d.size d.stride :=
       r1.1 ▸ inBounds_of_wf wf d hd _ (Nat.le_refl _)
     obtain ⟨s1, s2, s3, s4⟩ := storeVec_spec (nn := nn) s.heap d
@@ -278,7 +324,7 @@ theorem stepD_refines_partial {c : Module.Parts α} (S : DftOpsSound c nn) (wf :
     rw [s3 i t hi ht, S.dft_idft_exact P x.size d.size (s.dvec x) (r2 x P hP) hb i t hi ht]
   | smallProduct d x y =>
     obtain ⟨hd, hx, hy, hd1, hx0, hy0, hb⟩ := hpre
-    refine ⟨?_, r2, r3, r4⟩
+    refine ⟨?_, r2, r3, r4, r5⟩
     have hres : InBounds nn s.heap.mem.size d.off d.size d.stride :=
       r1.1 ▸ inBounds_of_wf wf d hd _ (Nat.le_refl _)
     obtain ⟨s1, s2, s3, s4⟩ := storeVec_spec (nn := nn) s.heap d
@@ -368,7 +414,7 @@ example : let h : Heap Int := ⟨exHeap.mem.set! 3 9223372036854775798, true⟩
 
 def exD : DVar := ⟨0, 2⟩
 def exProgD : List OpD := [.coeff (.add exX exX exY), .dft exD exX, .idft exZ exD, .coeff (.negate exZ exZ)]
-def exA : AState := ⟨exEnv, fun _ => none, fun _ => none, fun _ => none⟩
+def exA : AState := ⟨exEnv, fun _ => none, fun _ => none, fun _ => none, fun _ => none⟩
 def exS : CState Int := ⟨exHeap, fun _ => #[], fun _ => #[], fun _ => #[]⟩
 
 example : RD (toySound 4) 22 exVars (run (astepD 4) exProgD exA) (run (cstepD (toyParts 4) 4) exProgD exS) :=
